@@ -89,3 +89,15 @@ package checker
 //@   loop 0 invariant (errorsCount == rangeindex + 1) <==> (forall j {checkerList[j]} :: 0 <= j && j <= rangeindex ==> !chkOK(checkerList[j], basisLex(node)))
 //@   loop 0 invariant rangeindex >= 0 && !chkOK(checkerList[rangeindex], basisLex(node)) ==> err != nil && typeis(err, errors.DocumentError)
 //@   loop 0 decreases len(checkerList) - rangeindex
+
+// ---- phases called from Schema.compile: arbitrary effect (nothing assumed) ----
+//@ func CheckRootSchema(rootSchema)
+//@   props C11
+//@   trusted "phase boundary: arbitrary effect, may panic (nothing is assumed about it)"
+//@   maypanic
+//@   modifies *
+//@ func CheckRecursion(rootTypeName, rootSchema)
+//@   props C11
+//@   trusted "phase boundary: arbitrary effect, may panic (nothing is assumed about it)"
+//@   maypanic
+//@   modifies *
